@@ -78,6 +78,13 @@ pub fn judge_c10(sc: &Scenario, rep: &RunReport, env: &Env) -> Result<Verdict, F
         labels.push(format!("stale-reads:{}", if rep.sim.ext.data.lock().unwrap().stale_reads > 0 { "some" } else { "none-hit" }));
     }
 
+    // Listed finding C10-ext-lost-response-dangling: once the response of a put_if_not_exists that took effect is lost,
+    // lance treats the commit as a conflict: without retries the staged manifest is deleted and the entry dangles, with
+    // retries the same transaction is committed a second time (double commit).  Every such run ends here.
+    if is_known_ext_lost_response(sc, rep) && env.known(KNOWN_EXT_LOST_RESPONSE) {
+        return Ok(Verdict { labels, nontrivial: None, rejected, known: Some((KNOWN_EXT_LOST_RESPONSE.to_string(), format!("{what}: lost response of put_if_not_exists"))) });
+    }
+
     // ---- the external map never points at nothing -------------------------------------------------------------------
     // (an entry is created for a staged manifest; finalisation copies before it flips the entry and deletes afterwards)
     let ext_now = rep.sim.ext.snapshot();
